@@ -251,11 +251,13 @@ func (e *Exec) run(ct *Contract, fi *FuncInfo, lit *ast.FuncLit) {
 		sc := &Ctx{st: st, fr: fr, spec: true, old: pre}
 		e.assume(st, e.evalCond(rq.Expr, sc))
 	}
+	// old(...) and the frame refer to the state in which the function is called: ghost updates `on entry` are part of
+	// what the function does
+	fr.entry = st.clone()
 	for _, a := range ct.OnEntry {
 		sc := &Ctx{st: st, fr: fr, spec: true, old: pre}
 		e.assign(a.LHS, e.eval(a.RHS, sc), sc)
 	}
-	fr.entry = st.clone()
 	e.reach(st, e.fnName+"#reach.entry", p.pos(fi.Decl))
 	fl := e.block(body.List, st, fr)
 	rets := fl.rets
